@@ -380,6 +380,20 @@ pub fn run(_scenario: u32, choices: &[u8], _strict: bool) -> Outcome {
   let swap_roles = c.bool();
   let (ida, idb) = if swap_roles { (&f.id2, &f.id1) } else { (&f.id1, &f.id2) };
 
+  // ---------------------------------------------------------------- (0) calibration of the hand-built reply
+  // built with a CA-issued identity it must be accepted, otherwise rejecting the foreign one proves nothing
+  static CALIBRATED: std::sync::Once = std::sync::Once::new();
+  CALIBRATED.call_once(|| {
+    let (mut i, mut r) = ordered(party(&f.id1, 7), party(&f.id2, 130));
+    introduce(&mut i, &mut r).expect("C19 calibration: introduce");
+    let (_, hs, request) = i.auth.begin_handshake_request(i.handle, i.peer, i.pdata.clone()).expect("C19 calibration: request");
+    let t = attacker_reply(&request, &f.id2, 130).expect("C19 calibration: hand-built reply");
+    match i.auth.process_handshake(t, hs) {
+      Ok((ValidationOutcome::OkFinalMessage, Some(_))) => {}
+      other => panic!("C19 calibration: a hand-built reply with a CA-issued identity is not accepted: {:?}", other.map(|(oc, _)| oc)),
+    }
+  });
+
   // ---------------------------------------------------------------- (1) the genuine run, twice (a donor of other values)
   let genuine = match genuine_run(ida, idb, seeds, false) {
     Ok(r) => r,
@@ -424,6 +438,7 @@ pub fn run(_scenario: u32, choices: &[u8], _strict: bool) -> Outcome {
   i.hs = hs;
 
   // the bad message for the chosen stage; `due` is the genuine message that is due there
+  let due_request = &request;
   let make_bad = |c: &mut Choices, due: &HandshakeMessageToken, stage: Stage, what: &mut String| -> HandshakeMessageToken {
     let donor_same = match stage {
       Stage::Request => &donor.request,
@@ -452,6 +467,12 @@ pub fn run(_scenario: u32, choices: &[u8], _strict: bool) -> Outcome {
         } else {
           foreign_run(&f.foreign, if swap_roles { &f.id2 } else { &f.id1 }, seeds)
         };
+        if stage == Stage::Reply {
+          if let Some(t) = attacker_reply(due_request, &f.foreign, seeds.1) {
+            *what = "a consistent reply built by hand, certificate issued by a foreign CA".into();
+            return t;
+          }
+        }
         match (run, stage) {
           (Some((rq, _, _)), Stage::Request) => rq,
           (Some((_, Some(rp), _)), Stage::Reply) => rp,
@@ -466,7 +487,10 @@ pub fn run(_scenario: u32, choices: &[u8], _strict: bool) -> Outcome {
         *what = "request of a CA-issued identity claiming a GUID not derived from its certificate".into();
         match genuine_run(ida, idb, seeds, true) {
           // the run itself must fail at the replier; we only want its request
-          Ok(run) => run.request,
+          Ok(run) => {
+            *what = "COMPLETED handshake of a CA-issued identity claiming a GUID not derived from its certificate".into();
+            run.request
+          }
           Err(_) => wrong_guid_request(ida, idb, seeds).unwrap_or_else(|| donor.request.clone()),
         }
       }
@@ -482,6 +506,14 @@ pub fn run(_scenario: u32, choices: &[u8], _strict: bool) -> Outcome {
     o.sample = format!("seeds={seeds:?} swap={swap_roles} stage=Request fault={what} -> {}", if res.is_ok() { "accepted as a request" } else { "rejected" });
     if secret_of(&r).is_some() {
       o.violate("c19.forgery-accepted", "request", format!("{}: the replier holds a shared secret after a bad request", o.sample));
+      return o;
+    }
+    if res.is_ok() && (fault_kind == 3 || fault_kind == 4) {
+      o.violate(
+        "c19.forgery-accepted",
+        if fault_kind == 3 { "request:foreign-ca-certificate" } else { "request:guid-not-bound" },
+        format!("{}: begin_handshake_reply accepted it (the presenter holds the matching key and can complete the handshake)", o.sample),
+      );
       return o;
     }
     if let Ok((_, hs, bad_reply)) = res {
@@ -653,6 +685,74 @@ pub fn run(_scenario: u32, choices: &[u8], _strict: bool) -> Outcome {
   o.label(if i.handle == 0 && swap_roles { "identity2-initiates-or-replies" } else { "roles-by-guid" });
   o.digest = fnv(o.sample.as_bytes());
   o
+}
+
+/// A reply to the genuine `request`, built by hand the way an attacker would: every field
+/// is consistent (hashes, challenge, dh1, signature by the key that belongs to the presented
+/// certificate, GUID derived from that certificate); only the certificate's issuer is wrong.
+fn attacker_reply(request: &HandshakeMessageToken, id: &Identity, seed: u8) -> Option<HandshakeMessageToken> {
+  use byteorder::BigEndian;
+
+  use crate::{
+    security::{authentication::types::Sha256, types::BinaryProperty},
+    serialization::to_vec,
+  };
+  let get = |name: &str| request.data_holder.binary_properties.iter().find(|p| p.name == name).map(|p| p.value.clone());
+  // the GUID an honest instance would derive from this certificate
+  let honest = party(id, seed);
+  let pdata = bytes::Bytes::from(honest.pdata.clone());
+  let c_id = bytes::Bytes::from(id.cert_pem.clone().into_bytes());
+  let c_perm = bytes::Bytes::new();
+  let dsign = bytes::Bytes::from_static(b"ECDSA-SHA256");
+  let kagree = get("c.kagree_algo")?;
+  let c2 = vec![
+    BinaryProperty::with_propagate("c.id", c_id.clone()),
+    BinaryProperty::with_propagate("c.perm", c_perm.clone()),
+    BinaryProperty::with_propagate("c.pdata", pdata.clone()),
+    BinaryProperty::with_propagate("c.dsign_algo", dsign.clone()),
+    BinaryProperty::with_propagate("c.kagree_algo", kagree.clone()),
+  ];
+  let hash_c2 = Sha256::hash(&to_vec::<Vec<BinaryProperty>, BigEndian>(&c2).ok()?);
+  let hash_c2 = bytes::Bytes::copy_from_slice(hash_c2.as_ref());
+  // a fresh ECDH key pair and challenge
+  let group = EcGroup::from_curve_name(Nid::X9_62_PRIME256V1).ok()?;
+  let eph = EcKey::generate(&group).ok()?;
+  let mut ctx = openssl::bn::BigNumContext::new().ok()?;
+  let dh2 = bytes::Bytes::from(eph.public_key().to_bytes(&group, openssl::ec::PointConversionForm::UNCOMPRESSED, &mut ctx).ok()?);
+  let challenge2 = bytes::Bytes::from(vec![seed.wrapping_mul(3).wrapping_add(9); 32]);
+  let challenge1 = get("challenge1")?;
+  let dh1 = get("dh1")?;
+  let hash_c1 = get("hash_c1")?;
+  let cc2 = vec![
+    BinaryProperty::with_propagate("hash_c2", hash_c2.clone()),
+    BinaryProperty::with_propagate("challenge2", challenge2.clone()),
+    BinaryProperty::with_propagate("dh2", dh2.clone()),
+    BinaryProperty::with_propagate("challenge1", challenge1.clone()),
+    BinaryProperty::with_propagate("dh1", dh1.clone()),
+    BinaryProperty::with_propagate("hash_c1", hash_c1.clone()),
+  ];
+  let key = PKey::private_key_from_pem(id.key_pem.as_bytes()).ok()?;
+  let mut signer = openssl::sign::Signer::new(MessageDigest::sha256(), &key).ok()?;
+  let signature = bytes::Bytes::from(signer.sign_oneshot_to_vec(&to_vec::<Vec<BinaryProperty>, BigEndian>(&cc2).ok()?).ok()?);
+  // same shape as a genuine reply: take one and replace the values
+  let mut t = request.clone();
+  t.data_holder.class_id = "DDS:Auth:PKI-DH:1.0+Reply".to_string();
+  let mut props = vec![
+    ("c.id", c_id),
+    ("c.perm", c_perm),
+    ("c.pdata", pdata),
+    ("c.dsign_algo", dsign),
+    ("c.kagree_algo", kagree),
+    ("hash_c2", hash_c2),
+    ("dh2", dh2),
+    ("hash_c1", hash_c1),
+    ("dh1", dh1),
+    ("challenge1", challenge1),
+    ("challenge2", challenge2),
+    ("signature", signature),
+  ];
+  t.data_holder.binary_properties = props.drain(..).map(|(n, v)| BinaryProperty::with_propagate(n, v)).collect();
+  Some(t)
 }
 
 /// the three messages of a handshake between an impostor (foreign CA) and a genuine
